@@ -35,8 +35,17 @@ package grpc
 //@ at call sample.SetProtoCode assert [code-is-the-mapped-status] arg(code) == code && imp(calls(g.Stub.InvokeRpc) == 1, code == result_of(ConvertGrpcStatus, 0)) && imp(calls(g.Stub.InvokeRpc) == 0, code == 0 || code == 400)
 //@ at call g.Aggr.Report assert [the-sample-of-this-shot] arg(a0) == box(result_of(netsample.Acquire, 0))
 
+// Answer logging by filter: never faults, leaves the gun and the messages alone.
 //@ func (g *Gun) Answ
-//@ trusted
+//@ props C19 C20
+//@ nilsafe
+//@ env [a-gun-with-answer-logging-has-its-answer-logger] imp(g.Conf.AnswLog.Enabled, g.AnswLog != nil)
+//@ modifies nothing
+//@ ensures [logged-only-when-enabled] imp(!g.Conf.AnswLog.Enabled, calls(g.AnswLogging) == 0) && calls(g.AnswLogging) <= 1
+//@ func (g *Gun) AnswLogging
+//@ props C19 C20
+//@ nilsafe
+//@ requires logger != nil
 //@ modifies nothing
 
 // ---------------------------------------------------------------- binding and shared dependencies (C11, C20)
